@@ -58,7 +58,8 @@ def _case(draw, tier):
     k = draw(st.integers(0, len(sig) - 1))
     marg = list(draw(st.permutations(sig)))[:k]
     steps = [draw(st.integers(1, 4)) for _ in range(8)]
-    return {"kind": kind, "sig": sig, "ranks": ranks, "base": base,
+    pre = draw(st.lists(st.integers(0, 63), max_size=6))
+    return {"kind": kind, "sig": sig, "ranks": ranks, "base": base, "pre": pre,
             "formulas": [fm.to_json(f) for f in fs],
             "conds": [[fm.to_json(B), fm.to_json(A)] for B, A in conds], "marg": marg, "steps": steps,
             "offset": draw(st.integers(0, 3))}
@@ -114,8 +115,14 @@ def run_case(case, ctx):
             if not base or not ref.strongly_consistent(sem):
                 return []
             bb = bridge.mk_bb(sig, base)
-            ocf = PreOCF.init_system_z(bb) if kind == "z" else PreOCF.init_random_min_c_rep(bb)
-            rk = dict(ocf.compute_all_ranks())
+            mk = (lambda: PreOCF.init_system_z(bb)) if kind == "z" else (lambda: PreOCF.init_random_min_c_rep(bb))
+            ocf = mk()
+            rk = dict(mk().compute_all_ranks())        # reference values from a twin object
+            # the object under test stays lazily filled: only a drawn subset of worlds is ranked
+            for w in case.get("pre", []):
+                ocf.rank_world(world_str(w % (1 << n), n))
+            if 0 < len(set(w % (1 << n) for w in case.get("pre", []))) < (1 << n):
+                ctx.stratum("lazy:partially-ranked")
     except BaseException as e:  # noqa: BLE001
         if kind == "custom":
             return [obs(f"construct|{bridge.exc_symptom(e)}", {"message": str(e)[:200]})]
@@ -175,6 +182,11 @@ def run_case(case, ctx):
         if bool(got) != exp:
             out.append(obs("conditional_acceptance|value", dict(info, cond=fm.cond_text(B, A), got=bool(got), expected=exp)))
     # ---- marginalisation ----------------------------------------------------------------------
+    if kind != "custom":
+        try:
+            ocf.compute_all_ranks()     # marginalisation works on the ranks computed so far
+        except BaseException as e:  # noqa: BLE001
+            out.append(obs(f"compute_all_ranks|{bridge.exc_symptom(e)}", dict(info, message=str(e)[:200])))
     marg = [a for a in case["marg"] if a in sig]
     if len(marg) < n:
         keep = [a for a in sig if a not in marg]
@@ -264,5 +276,5 @@ def shrink(case):
 
 
 def required_strata(tier):
-    return ["kind:custom", "kind:z", "kind:c", "acceptance:both-undefined", "acceptance:tie",
+    return ["kind:custom", "kind:z", "kind:c", "lazy:partially-ranked", "acceptance:both-undefined", "acceptance:tie",
             "marginalize:1-atoms", "marginalize:2-atoms", "exhaustive-subdomain"]
